@@ -5,10 +5,12 @@
      Mutex:     state word = 0 (no starvation ticket, not locked), lock_ops has no entry, try_lock succeeds;
      Semaphore: the event has no entry and count + forgotten = initial + added, i.e. every permit that was
                 not forgotten is in the counter, where try_acquire takes it (C14_try_acquire_exact).
-   RwLock: the two words are proved clean (C10_rw_words_partial: state = 0, inner mutex word = 0, all
-   try_* succeed); that its three events have no entry left is NOT yet proved (needs the RwLock event
-   invariant) and is decided by the correspondence check + monitors. *)
-From AL Require Import Base Api Mutex MutexApi Semaphore SemApi RwLock RwApi MutexInv MutexLive SemCount SemLive Cancel RwInv.
+   RwLock: with no future and no guard alive the two words are 0 (C10_rw_words_partial; hence all try_*
+   succeed, C14_free_lock_succeeds) and none of its three events (inner mutex lock_ops, no_readers, no_writer)
+   holds an entry (C10_rw_events) — whatever was cancelled on the way, including an announced writer and an
+   upgrade (whose cancellation clears WRITER_BIT, wakes a reader and releases the inner mutex: the liveness
+   conditions of C06 hold in the state after every cancellation, C06_invariant). *)
+From AL Require Import Base Api Mutex MutexApi Semaphore SemApi RwLock RwApi MutexInv MutexLive SemCount SemLive Cancel RwInv RwLive.
 From AL.Tie Require Tie_Mutex Tie_Semaphore Tie_Raw Tie_RwLock Tie_RwFutures.
 
 Theorem C10_mutex_no_trace : forall (ops : list mop) (arc : bool), N.of_nat (length ops) < LIVE_BOUND ->
@@ -32,6 +34,10 @@ Proof.
   unfold nR, nU, nW, nH, nT in *. rewrite F, G in *. cbn in Q1, Q0. split; assumption.
 Qed.
 
+Theorem C10_rw_events : forall (ops : list rop), N.of_nat (length ops) < RLIVE_BOUND ->
+  r_futs (rrun ops) = [] -> se0 (r_sh (rrun ops)) = [] /\ se1 (r_sh (rrun ops)) = [] /\ se2 (r_sh (rrun ops)) = [].
+Proof. exact rw_idle_events. Qed.
+
 (* non-vacuity: word = 3 (locked + one starved waiter), two entries; the guard is dropped, the notified
    waiter and then the starved waiter are cancelled; nothing is left *)
 Example C10_nonvacuous :
@@ -47,3 +53,4 @@ Proof. vm_compute. repeat split. Qed.
 Print Assumptions C10_mutex_no_trace.
 Print Assumptions C10_sem_no_trace.
 Print Assumptions C10_rw_words_partial.
+Print Assumptions C10_rw_events.
